@@ -72,7 +72,8 @@ P = {
   "random addresses through the real irc_ntop, irc_pton and libc inet_pton.", "Lean 4 proofs on printer/parser models + exhaustive pattern correspondence incl. libc"),
  "C13": ("addr", True,
   "Lean theorem mask_spec (irc_check_mask true iff the top min(n,128) bits agree, all a, m, n), pton_safe (no out-of-bounds access for any input), "
-  "CIDR/wildcard meaning lemmas, every printed address read back as its own /128 (C13_plain_is_128); all short strings over the address alphabet and grammar-derived/mutated texts through the real parser under ASan, "
+  "C13_netmask: every documented netmask text form yields the documented network and length for all its instances (*, a.b.c.d/n, a.*, a.b.*, a.b.c.*, x:y:* with 1-7 groups, "
+  "<printed address>/n for every address and n<=128), every printed address read back as its own /128 (C13_plain_is_128); all short strings over the address alphabet and grammar-derived/mutated texts through the real parser under ASan, "
   "agreement with inet_pton where both accept.", "Lean 4 proofs (mask_spec, pton_safe, CIDR lemmas) + exhaustive short-string correspondence incl. libc"),
  "C14": ("conf", True,
   "Lean 4 theorems for every byte sequence and every prior state: the model of conf_read's parser terminates within a fuel bound derived from the "
